@@ -31,6 +31,9 @@ struct Shape {
     int32_t version = 2; uint32_t locktime = 0;
     std::vector<uint32_t> sequences;      // per input (default 0xfffffffe)
     int64_t amount = 100000000;
+    std::string leaf_kind;                // p2wsh-checksig / p2tr-script: "" = the signature script; "data" = a signature-free script over two small witness items
+                                          // whose hex spelling is digits only (51, 1234); "p2sh-shaped" = OP_HASH160 <20 bytes> OP_EQUAL as witness script / leaf
+    int tap_checks = 1;                   // p2tr-script: the leaf checks its one signature this many times (<P> [2DUP CHECKSIGVERIFY]* CHECKSIG): BIP342 budget vs whole-witness size
     int pad = 0, pad2 = 0;                // p2wsh-checksig / p2tr-script: the script starts with <pad bytes> DROP [<pad2 bytes> DROP] (scripts larger than one stack element)
 };
 inline bytes pad_prefix(const Shape& sh) {
@@ -75,6 +78,10 @@ inline std::vector<TxOut> spent_list(const Shape& sh, const Tx& fund) {
 
 inline bytes sign_ecdsa(const Key& k, const bytes& digest, uint8_t ht, bool low_s = true) { bytes s = ecdsa_sign_der(k.priv, digest, low_s); s.push_back(ht); return s; }
 
+inline bytes data_leaf() { return script_cat({push_raw(bytes{0x51}), op(0x88), push_raw(bytes{0x12, 0x34}), op(0x87)}); }   // <51> EQUALVERIFY <1234> EQUAL
+inline std::vector<bytes> data_items() { return {bytes{0x12, 0x34}, bytes{0x51}}; }
+inline bytes p2sh_shaped_preimage() { return bytes{0xaa, 0xbb, 0xcc}; }
+inline bytes p2sh_shaped_leaf() { bytes h = hash160(p2sh_shaped_preimage()); return script_cat({op(0xa9), push_raw(h), op(0x87)}); }
 // ---- the output types. `ht` is the hash type used for every signature.
 inline Spend make_spend(const std::string& type, const Shape& sh, uint8_t ht = 1, int pathlen = 1, bool annex = false, uint64_t seed = 0) {
     Spend S; S.type = type; S.nin = sh.pos;
@@ -115,6 +122,9 @@ inline Spend make_spend(const std::string& type, const Shape& sh, uint8_t ht = 1
         finish_v0(p2wsh_spk(ws), {}, ws, [&](const std::vector<bytes>& s) { return std::vector<bytes>{{}, s[0], s[1], ws}; }, {&k1, &k2});
     } else if (type == "p2wsh-checksig") {
         bytes ws = script_cat({pad_prefix(sh), push_raw(k1.pub), op(0xac)});
+        if (sh.leaf_kind == "data") { ws = data_leaf(); finish_v0(p2wsh_spk(ws), {}, ws, [&](const std::vector<bytes>&) { auto w = data_items(); w.push_back(ws); return w; }, {}); }
+        else if (sh.leaf_kind == "p2sh-shaped") { ws = p2sh_shaped_leaf(); finish_v0(p2wsh_spk(ws), {}, ws, [&](const std::vector<bytes>&) { return std::vector<bytes>{p2sh_shaped_preimage(), ws}; }, {}); }
+        else
         finish_v0(p2wsh_spk(ws), {}, ws, [&](const std::vector<bytes>& s) { return std::vector<bytes>{s[0], ws}; }, {&k1});
     } else if (type == "p2sh-p2wpkh") {
         bytes redeem = p2wpkh_spk(k1.pub);
@@ -137,7 +147,11 @@ inline Spend make_spend(const std::string& type, const Shape& sh, uint8_t ht = 1
         if (annex) S.tx.vin[sh.pos].witness.push_back(ann);
     } else if (type == "p2tr-script") {
         // leaf: <xonly k2> CHECKSIG ; path of `pathlen` sibling hashes
-        S.leaf_script = script_cat({pad_prefix(sh), push_raw(k2.xonly), op(0xac)});
+        S.leaf_script = script_cat({pad_prefix(sh), push_raw(k2.xonly)});
+        for (int i = 1; i < sh.tap_checks; i++) { S.leaf_script.push_back(0x6e); S.leaf_script.push_back(0xad); }
+        S.leaf_script.push_back(0xac);
+        if (sh.leaf_kind == "data") S.leaf_script = data_leaf();
+        if (sh.leaf_kind == "p2sh-shaped") S.leaf_script = p2sh_shaped_leaf();
         bytes k = tapleaf_hash(0xc0, S.leaf_script);
         std::vector<bytes> path;
         for (int i = 0; i < pathlen; i++) { bytes node = sha256(bytes{'n', 'o', 'd', 'e', uint8_t(i), uint8_t(seed)}); if (i % 2) node[0] = 0x00; else node[0] = 0xff; path.push_back(node); k = tapbranch_hash(k, node); }
@@ -151,6 +165,8 @@ inline Spend make_spend(const std::string& type, const Shape& sh, uint8_t ht = 1
         bytes sig = ok ? schnorr_sign(k2.priv, digest) : bytes(64, 0x11);
         if (ht != 0) sig.push_back(ht);
         S.tx.vin[sh.pos].witness = {sig, S.leaf_script, S.control};
+        if (sh.leaf_kind == "data") { auto w = data_items(); w.push_back(S.leaf_script); w.push_back(S.control); S.tx.vin[sh.pos].witness = w; }
+        if (sh.leaf_kind == "p2sh-shaped") S.tx.vin[sh.pos].witness = {p2sh_shaped_preimage(), S.leaf_script, S.control};
         if (annex) S.tx.vin[sh.pos].witness.push_back(ann);
     } else throw std::runtime_error("unknown spend type " + type);
     return S;
